@@ -34,6 +34,8 @@ import (
 	"verifharness/lib"
 )
 
+const shapeMemTreePending = "memtree-answers-committed-root-from-never-committed-update-nodes-disk-correct"
+
 type Cfg struct {
 	Name    string `json:"name"`
 	Prefix  bool   `json:"prefix,omitempty"`
@@ -143,6 +145,8 @@ type seqRunner struct {
 	log       []string
 	step      int
 	uniq      int
+	// never-committed (pending, rolled back) updates computed since the last (re)open of the store
+	uncommittedSinceRestart int
 }
 
 func (r *seqRunner) violate(shape, format string, a ...any) {
@@ -163,7 +167,8 @@ func (r *seqRunner) readRoot(v *version, keys []string, why string) {
 	}
 	var vals [][]byte
 	if p := guard(func() { vals = r.st.Get(&types.StoreGet{StateHash: v.Root, Keys: bk}) }); p != "" {
-		r.violate("committed-root-read-panics", "%s: Get at committed root %s (height %d) panicked: %s", why, hx(v.Root), v.Height, lib.ShortList(strings.Split(p, "\n"), 1))
+		shape, facts := r.shapeOfReadFailure(v, "committed-root-read-panics")
+		r.violate(shape, "%s: Get at committed root %s (height %d) panicked: %s [%s]", why, hx(v.Root), v.Height, lib.ShortList(strings.Split(p, "\n"), 1), facts)
 		return
 	}
 	for i, k := range keys {
@@ -173,9 +178,58 @@ func (r *seqRunner) readRoot(v *version, keys []string, why string) {
 			r.cnt["reads_where_another_update_differs"]++
 		}
 		if (has && string(vals[i]) != want) || (!has && vals[i] != nil) {
-			r.violate("committed-root-read-differs", "%s: Get(root %s height %d, key %q) = %q, model %q (present=%v)", why, hx(v.Root), v.Height, k, vals[i], want, has)
+			shape, facts := r.shapeOfReadFailure(v, "committed-root-read-differs")
+			r.violate(shape, "%s: Get(root %s height %d, key %q) = %q, model %q (present=%v) [%s]", why, hx(v.Root), v.Height, k, vals[i], want, has, facts)
 		}
 	}
+}
+
+// rawContent walks the persisted node graph of root on the raw DB (no node cache, no memTree).
+func (r *seqRunner) rawContent(root []byte) (m map[string]string, missing []string) {
+	db := r.st.GetDB()
+	m = map[string]string{}
+	var rec func(h []byte)
+	rec = func(h []byte) {
+		v, err := db.Get(h)
+		if err != nil || len(v) == 0 {
+			missing = append(missing, hx(h))
+			return
+		}
+		var sn types.StoreNode
+		if types.Decode(v, &sn) != nil {
+			missing = append(missing, "undecodable:"+hx(h))
+			return
+		}
+		if sn.Height == 0 {
+			m[string(sn.Key)] = string(sn.Value)
+			return
+		}
+		rec(sn.LeftHash)
+		rec(sn.RightHash)
+	}
+	rec(root)
+	return
+}
+
+// shapeOfReadFailure derives the witness shape from measured facts: is memTree on, is the persisted graph of the
+// committed root complete and equal to the model on the raw DB (then the store answered from memory, not from
+// disk), and were updates computed in this process that never got committed.
+func (r *seqRunner) shapeOfReadFailure(v *version, base string) (string, string) {
+	m, missing := r.rawContent(v.Root)
+	diskOK := len(missing) == 0 && len(m) == len(v.M)
+	if diskOK {
+		for k, want := range v.M {
+			if m[k] != want {
+				diskOK = false
+			}
+		}
+	}
+	facts := fmt.Sprintf("memTree=%v, persisted graph of the root complete and equal to the model on the raw DB=%v (missing %v), never-committed updates computed since the last restart=%d",
+		r.in.Cfg.MemTree, diskOK, missing, r.uncommittedSinceRestart)
+	if r.in.Cfg.MemTree && diskOK && r.uncommittedSinceRestart > 0 {
+		return shapeMemTreePending, facts
+	}
+	return base, facts
 }
 
 // listRoot: the root must expose exactly its content.
@@ -189,17 +243,20 @@ func (r *seqRunner) listRoot(v *version, why string) {
 			return false
 		})
 	}); p != "" {
-		r.violate("committed-root-list-panics", "%s: listing committed root %s panicked: %s", why, hx(v.Root), p)
+		shape, facts := r.shapeOfReadFailure(v, "committed-root-list-panics")
+		r.violate(shape, "%s: listing committed root %s (height %d) panicked: %s [%s]", why, hx(v.Root), v.Height, lib.ShortList(strings.Split(p, "\n"), 1), facts)
 		return
 	}
 	r.cnt["full_listings_compared"]++
 	if n != len(v.M) || len(got) != len(v.M) {
-		r.violate("committed-root-content-differs", "%s: root %s lists %d entries (%d distinct), model has %d", why, hx(v.Root), n, len(got), len(v.M))
+		shape, facts := r.shapeOfReadFailure(v, "committed-root-content-differs")
+		r.violate(shape, "%s: root %s lists %d entries (%d distinct), model has %d [%s]", why, hx(v.Root), n, len(got), len(v.M), facts)
 		return
 	}
 	for k, want := range v.M {
 		if g, ok := got[k]; !ok || g != want {
-			r.violate("committed-root-content-differs", "%s: root %s lists %q=%q (present=%v), model %q", why, hx(v.Root), k, g, ok, want)
+			shape, facts := r.shapeOfReadFailure(v, "committed-root-content-differs")
+			r.violate(shape, "%s: root %s lists %q=%q (present=%v), model %q [%s]", why, hx(v.Root), k, g, ok, want, facts)
 			return
 		}
 	}
@@ -341,11 +398,16 @@ func (r *seqRunner) run() {
 			var err error
 			p := guard(func() { root, err = r.st.Set(&types.StoreSet{StateHash: ph, KV: kvs, Height: h}, false) })
 			if p != "" || err != nil || root == nil {
-				r.violate("set-on-committed-parent-failed", "Set on committed parent %s failed: %v %s", hx(ph), err, p)
+				shape, facts := "set-on-committed-parent-failed", ""
+				if parent != nil && p != "" {
+					// the store itself could not read the committed parent
+					shape, facts = r.shapeOfReadFailure(parent, shape)
+				}
+				r.violate(shape, "Set on committed parent %s failed: %v %s [%s]", hx(ph), err, lib.ShortList(strings.Split(p, "\n"), 1), facts)
 				break
 			}
 			r.cnt["sets"]++
-			r.logf("set parent=%s h=%d n=%d -> %s", hx(ph), h, len(kvs), hx(root))
+			r.logf("set parent=%s h=%d {%s} -> %s", hx(ph), h, kvStr(kvs), hx(root))
 			r.noteDiff(m, string(root))
 			v := r.commitModel(root, m, h)
 			r.listRoot(v, "after Set")
@@ -376,14 +438,18 @@ func (r *seqRunner) run() {
 			var err error
 			p := guard(func() { root, err = r.st.MemSet(&types.StoreSet{StateHash: parent.Root, KV: kvs, Height: h}, false) })
 			if p != "" || err != nil || root == nil {
-				r.violate("memset-on-committed-parent-failed", "MemSet on committed parent %s failed: %v %s", hx(parent.Root), err, p)
+				shape, facts := "memset-on-committed-parent-failed", ""
+				if p != "" {
+					shape, facts = r.shapeOfReadFailure(parent, shape)
+				}
+				r.violate(shape, "MemSet on committed parent %s failed: %v %s [%s]", hx(parent.Root), err, lib.ShortList(strings.Split(p, "\n"), 1), facts)
 				break
 			}
 			r.cnt["memsets"]++
 			if len(sibs) > 0 {
 				r.cnt["memsets_competing_with_pending_sibling"]++
 			}
-			r.logf("memset parent=%s h=%d n=%d -> %s", hx(parent.Root), h, len(kvs), hx(root))
+			r.logf("memset parent=%s h=%d {%s} -> %s", hx(parent.Root), h, kvStr(kvs), hx(root))
 			if kvs == nil {
 				r.cnt["memsets_empty"]++
 				if !bytes.Equal(root, parent.Root) {
@@ -408,6 +474,7 @@ func (r *seqRunner) run() {
 					r.uncommit[string(root)] = m
 				}
 				r.noteDiff(m, string(root))
+				r.uncommittedSinceRestart++
 			}
 			r.checkAll("after MemSet", kvKeys(kvs))
 		case x < 68 && len(pendRoots) > 0: // Commit
@@ -429,6 +496,7 @@ func (r *seqRunner) run() {
 				v = r.committed[pr]
 			} else {
 				v = r.commitModel(pv.Root, pv.M, pv.Height)
+				r.uncommittedSinceRestart -= pv.N
 			}
 			if v != nil {
 				r.listRoot(v, "after Commit")
@@ -484,6 +552,17 @@ func (r *seqRunner) run() {
 	}
 }
 
+func kvStr(kvs []*types.KeyValue) string {
+	var sb strings.Builder
+	for i, kv := range kvs {
+		if i > 0 {
+			sb.WriteByte(' ')
+		}
+		fmt.Fprintf(&sb, "%q=%q", kv.Key, kv.Value)
+	}
+	return sb.String()
+}
+
 func kvKeys(kvs []*types.KeyValue) []string {
 	var ks []string
 	for _, kv := range kvs {
@@ -496,6 +575,7 @@ func (r *seqRunner) reopen() {
 	r.st.Close()
 	mavldb.VerifBResetGlobals()
 	r.pending = map[string]*pendingV{}
+	r.uncommittedSinceRestart = 0
 	r.st = openStore(r.in.Dir, r.in.Cfg)
 }
 
@@ -916,7 +996,11 @@ func run(c *lib.Ctx) {
 		"parents of pending updates are committed roots (the store loads the parent from the DB)")
 
 	// ---- sequential
+	phase := os.Getenv("VERIF_C04_PHASE") // debugging aid: "seq" or "conc" runs one phase only (the run is then inconclusive)
 	nSeq := c.N(40, 600)
+	if phase == "conc" {
+		nSeq = 0
+	}
 	steps := 70
 	if !c.Quick() {
 		steps = 140
@@ -929,6 +1013,7 @@ func run(c *lib.Ctx) {
 		ins = append(ins, SeqIn{Idx: i, Seed: rng.U64(), Cfg: cfgs[i%len(cfgs)], Steps: rng.Range(steps/2, steps), Dir: filepath.Join(seqDir, fmt.Sprintf("h%d", i)), AllKey: !c.Quick()})
 	}
 	const batch = 5
+	tSeq := time.Now()
 	var mu sync.Mutex
 	nb := (nSeq + batch - 1) / batch
 	lib.Parallel(nb, 12, func(b int) {
@@ -986,18 +1071,32 @@ func run(c *lib.Ctx) {
 			nontrivial := o.Counters["reads_where_another_update_differs"] > 0 && o.Counters["rollbacks"]+o.Counters["pending_abandoned"] > 0
 			c.Case(lib.Fingerprint(o.Log), nontrivial, map[string]any{"history": in.Idx, "cfg": in.Cfg.Name, "steps": len(o.Log), "log_head": head(o.Log, 12), "counters": o.Counters})
 			c.Seen("seq_configs", in.Cfg.Name)
+			if in.Cfg.MemTree {
+				c.Count("seq_histories_memtree_stratum", 1)
+			} else {
+				c.Count("seq_histories_clean_stratum", 1)
+			}
 			for _, v := range viols {
+				if !in.Cfg.MemTree && v.Shape == shapeMemTreePending {
+					v.Shape = "clean-stratum:" + v.Shape
+				}
 				c.Violation(in.Idx, v.Shape, map[string]any{"case": in, "step": v.Step, "log": o.Log}, "sequential history %d (%s) step %d: %s", in.Idx, in.Cfg.Name, v.Step, v.Msg)
 			}
 		}
 	})
 	os.RemoveAll(seqDir)
+	c.Extra("wall_seq_s", time.Since(tSeq).Seconds())
 
 	// ---- concurrent (-race)
-	nConc := c.N(6, 60)
+	nConc := c.N(6, 30)
+	if phase == "seq" {
+		nConc = 0
+	}
 	repeats := 3
+	concWorkers := 6
 	if !c.Quick() {
-		repeats = 10
+		repeats = 6
+		concWorkers = 6
 	}
 	concDir := filepath.Join(c.Tmp, "conc")
 	os.MkdirAll(concDir, 0o755)
@@ -1009,7 +1108,7 @@ func run(c *lib.Ctx) {
 	for i := 0; i < nConc; i++ {
 		rng := c.CaseRng("conc", i)
 		base := ConcIn{Idx: 1000 + i, Cfg: cfgs[i%len(cfgs)], Writers: lib.Pick(rng, []int{8, 12, 16, 24, 32}), Parents: rng.Range(2, 3), DelayUs: lib.Pick(rng, []int{0, 300, 1500})}
-		base.Ops = 500 / base.Writers
+		base.Ops = 208 / base.Writers
 		if !c.Quick() {
 			base.Ops = 1200 / base.Writers
 		}
@@ -1022,7 +1121,8 @@ func run(c *lib.Ctx) {
 	}
 	raceDeciding := map[string]string{}
 	raceOther := map[string]int{}
-	lib.Parallel(len(cjs), 3, func(k int) {
+	tConc := time.Now()
+	lib.Parallel(len(cjs), concWorkers, func(k int) {
 		j := cjs[k]
 		if c.Skip(j.in.Idx) {
 			return
@@ -1074,6 +1174,7 @@ func run(c *lib.Ctx) {
 		}
 	})
 	os.RemoveAll(concDir)
+	c.Extra("wall_conc_s", time.Since(tConc).Seconds())
 	c.Extra("race_reports", map[string]any{"deciding": len(raceDeciding), "non_deciding_distinct": len(raceOther), "non_deciding": raceOther, "anchored_files": anchored})
 	if c.Replay == "" {
 		c.RequireEvents("seq_reads_compared", 5000)
